@@ -36,7 +36,7 @@ func riProgram(g, n int) string {
 		fmt.Fprintf(&sb, " sip(192.168.%d.0/24) -> pb\n", g)
 	}
 	if n >= 3 {
-		fmt.Fprintf(&sb, " dip(fd%02x::/16) -> block\n", g)
+		fmt.Fprintf(&sb, " dip('fd%02x::/16') -> block\n", g)
 	}
 	sb.WriteString(" dport(8080) -> pa\n fallback: direct\n}")
 	return sb.String()
@@ -169,6 +169,7 @@ func TestVerifC02Install(t *testing.T) {
 							ok = false
 							break
 						}
+						k.ForgetFlow(src, dst, unix.IPPROTO_TCP) // (the flow table is not a subject here: it must not fill up over many histories)
 						if got.Outbound != uint8(uo) || got.Mark != um || (got.Must != 0) != umust {
 							fail("", "generation %d is installed (program\n%s); packet %s -> %s: the kernel decides outbound %d, the generation's userspace matcher outbound %d", op.G, g.text, src, dst, got.Outbound, uo)
 							ok = false
